@@ -106,15 +106,46 @@ func loadGraph(dir string) (*Graph, error) {
 	return replayEvents(events)
 }
 
+// readEvents reads the whole log. Readers take no lock, and there is one case
+// in which a writer shortens the file under them: the repair of a torn tail
+// (and the roll-back of an append that failed half-way). A reader that was in
+// the middle of the removed bytes then glues their beginning to whatever was
+// written in their place and sees a line that was never in the log. Such an
+// error is not believed while the file is still moving: the read is repeated.
 func readEvents(path string) ([]Event, error) {
+	for attempt := 0; ; attempt++ {
+		events, moved, err := readEventsOnce(path)
+		if err == nil || !moved || attempt >= 3 {
+			return events, err
+		}
+	}
+}
+
+// readEventsOnce also reports whether the file changed size or was modified
+// between the moment it was opened and the moment an error was met.
+func readEventsOnce(path string) (events []Event, moved bool, err error) {
 	file, err := os.Open(path)
 	if err != nil {
 		if errors.Is(err, os.ErrNotExist) {
-			return nil, nil
+			return nil, false, nil
 		}
-		return nil, err
+		return nil, false, err
 	}
 	defer file.Close()
+	before, statErr := file.Stat()
+	defer func() {
+		if err == nil || statErr != nil {
+			return
+		}
+		if after, e := file.Stat(); e == nil {
+			moved = after.Size() != before.Size() || !after.ModTime().Equal(before.ModTime())
+		}
+	}()
+	events, err = scanEvents(path, file)
+	return events, false, err
+}
+
+func scanEvents(path string, file *os.File) ([]Event, error) {
 
 	const maxEventLineBytes = 10 * 1024 * 1024
 
